@@ -30,8 +30,8 @@ TEXT = {
               'Kani/CBMC inductive step + lock-step against a reference defragmenter (model callee; real heartbeat callee for the empty-first-fragment history); size guard via MIR->SMT', 'kani+mir2smt'),
     "C08": _t("The abstract domain (25 states x 21 message kinds x direction x session-id presence x 256 severities) is finite and fully symbolic, so the one-step relation is decided exhaustively; equality of the step relation with the reference table gives equality of the accepted sequence language.",
               "Kani/CBMC: implementation step function == reference transition table on all cells with symbolic payloads"),
-    "C09": _t('Values with symbolic field contents and concrete shapes are serialized, every emitted length field is re-derived by an independent walk, the output is staged into a local array with the asserted header bytes as constants and parsed back by the real parsers, and the fields are compared.',
-              'Kani/CBMC round trip serialize -> independent length walk -> parse -> compare, on symbolic field values'),
+    "C09": _t('Values with symbolic field contents and concrete shapes are serialized, every emitted length field is re-derived by an independent walk, the output is staged into a local array with the asserted header bytes as constants and parsed back by the real parsers, and the fields are compared; the 16/24-bit length prefixes (length_be_u16 / length_be_u24) are additionally decided over their full range by bit-vector queries generated from the MIR of the two closures.',
+              'Kani/CBMC round trip serialize -> independent length walk -> parse -> compare, on symbolic field values; length prefixes over the full 16/24-bit range via MIR->SMT', 'kani+mir2smt'),
     "C10": _t("DTLS header fields (epoch, 48-bit sequence, 24-bit lengths/offsets) are symbolic over their full width and compared with reference decoders; bodies are compared per type.",
               "Kani/CBMC differential check against DTLS reference decoders; handshake dispatcher with marker stubs"),
     "C11": _t("Each enumerated field is symbolic over its whole 8/16-bit domain inside an otherwise concrete well-formed structure.",
